@@ -106,5 +106,5 @@ def main():
         else:
             m["not_applicable"].append({"property_id":pid,"reason":na.get(pid,"check not built yet (work in progress; the specification family of DESIGN.md §2.1 is being implemented in the order of §8)")})
     json.dump(m,open("/verif/MANIFEST.json","w"),indent=1)
-HOOKS=[]
+HOOKS=["1d8062c"]
 main()
